@@ -491,6 +491,14 @@ func (s *Service) processWriteShardRequest(buf []byte) error {
 	}
 
 	points := req.Points()
+	for i, p := range points {
+		if p == nil {
+			// An entry that models.NewPointFromBytes could not decode: nothing of the request
+			// is written and the sender is told (it still holds the points).
+			atomic.AddInt64(&s.stats.WriteShardFail, 1)
+			return fmt.Errorf("write shard %d: point %d of %d cannot be decoded", req.ShardID(), i, len(points))
+		}
+	}
 	atomic.AddInt64(&s.stats.WriteShardPointsReq, int64(len(points)))
 	err := s.TSDBStore.WriteToShard(req.ShardID(), points)
 
